@@ -323,6 +323,14 @@ add(Contract("yarl._url:URL._make_child", [("self", URLT), ("paths", "strtuple")
              props=("C13", "C11", "C19"),
              note="'/' and joinpath for 0, 1 and 2 texts of any content, outside the normalising branch"))
 
+# ---------------------------------------------------------------- decoded accessors (C06)
+for _name in ("user", "password", "path", "path_safe", "query_string", "fragment", "name", "suffix"):
+    add(Contract(f"yarl._url:URL.{_name}", [("self", URLT)], spec=getattr(spec_url, _name),
+                 requires=spec_url.netloc_ok if _name in ("user", "password") else None,
+                 split_model="plist" if _name in ("name", "suffix") else None,
+                 props=("C06", "C19"),
+                 note="the decoded accessor is the component's decoder applied to the raw component (decoder itself: bounded, C06)"))
+
 # ---------------------------------------------------------------- reference resolution (C14)
 add(Contract("yarl._url:URL.join", [("self", URLT), ("url", UNION(URLT, CONST(None, "x")))], spec=spec_url.join,
              requires=spec_url.join_requires, raises=(TypeError,), split_model="plist", props=("C14", "C02", "C19"),
